@@ -184,6 +184,11 @@ def execute(scenario, chooser):
     env.install_threads()
     env.quiet_excepthook()
     from bardolph.lib import job_control
+    # everything ls_module imports is loaded before any run starts, so that
+    # importing it inside a run costs the same in every run of a process
+    from bardolph.controller import (config_values, light_module,  # noqa
+                                     script_job)
+    from bardolph.lib import injection, settings  # noqa
 
     pol = scenario['policy']
     sim = core.Sim(chooser, gran=pol['gran'], step_cap=60000)
@@ -334,11 +339,14 @@ def execute(scenario, chooser):
         # pre-emptible, and ScriptJob.from_string hands out instrumented jobs
         import importlib
         from sim import tracing
-        from bardolph.controller import ls_module, script_job
+        from bardolph.controller import script_job
         saved = script_job.ScriptJob.__dict__['from_string']
         script_job.ScriptJob.from_string = staticmethod(make_job)
         try:
-            ls = importlib.reload(ls_module)
+            # executed from scratch in every run (never a no-op import plus
+            # a reload in one run and a first import in another)
+            sys.modules.pop('bardolph.controller.ls_module', None)
+            ls = importlib.import_module('bardolph.controller.ls_module')
             names = [c.co_qualname for c in _all_codes(ls)]
             tracing.scope_module(ls, instructions=names)
             state['ls'] = ls
